@@ -181,3 +181,47 @@ func (s *Store) Eval(t *Term, env map[string]EVal, memo map[int]EVal) (EVal, err
 	memo[t.ID] = res
 	return res, nil
 }
+
+// EvalStr evaluates a string value (concrete, conditional, byte-symbolic or segment form) under a model.
+func (e *Exec) EvalStr(v Val, env map[string]EVal, memo map[int]EVal) (string, bool) {
+	switch x := v.(type) {
+	case *StrV:
+		if x.Segs != nil {
+			out := ""
+			for _, sg := range x.Segs {
+				if sg.Dec == nil {
+					out += sg.Text
+					continue
+				}
+				r, err := e.S.Eval(sg.Dec, env, memo)
+				if err != nil || r.R == nil || !r.R.IsInt() {
+					return "", false
+				}
+				out += r.R.Num().String()
+			}
+			return out, true
+		}
+		if x.Sym == nil {
+			return x.Conc, true
+		}
+		bs := make([]byte, len(x.Sym))
+		for i, t := range x.Sym {
+			r, err := e.S.Eval(t, env, memo)
+			if err != nil || r.R == nil || !r.R.IsInt() {
+				return "", false
+			}
+			bs[i] = byte(r.R.Num().Int64())
+		}
+		return string(bs), true
+	case *StrIte:
+		c, err := e.S.Eval(x.C, env, memo)
+		if err != nil {
+			return "", false
+		}
+		if c.B {
+			return e.EvalStr(x.A, env, memo)
+		}
+		return e.EvalStr(x.B, env, memo)
+	}
+	return "", false
+}
